@@ -87,7 +87,7 @@ def plan_scenario(plans, sid, nkeys=12):
         elif site in ("store.fetch.enter", "store.store.enter", "store.batch.enter"):
             faults.append(dict(site=site, rid="q", key=kname, kind="error"))
         elif site == "record":
-            prior.append(dict(k=i, kind="prop" if kind == "prop" else "att", fmt="garbage"))
+            prior.append(dict(k=i, kind="prop" if kind == "prop" else "att", fmt=fk))
         elif site == "store":
             pre_ops.append(dict(id="cl", kind="close"))
         else:
@@ -125,7 +125,9 @@ def run(prop, tier, seed):
             # at most one "store closed", and not two different kinds on the same site/position
             seen, sel = set(), []
             for pl in chosen:
-                key = (pl["site"], pl["pos"])
+                # a request-wide site carries ONE fault per request in the harness: two plans on it would leave the second one unfired
+                reqwide = pl["site"] in ("ruler.enter", "rules.att", "rules.atts", "rules.prop") or (pl["site"] == "rules.sign" and pl["kind"] != "multi")
+                key = (pl["site"],) if reqwide else (pl["site"], pl["pos"])
                 if key in seen or (pl["site"] == "store" and any(x["site"] == "store" for x in sel)):
                     continue
                 seen.add(key)
